@@ -207,6 +207,65 @@ def build(ctx):
     eng.lenient = False
     eng.inline_only = None
 
+    # ------------------------------------------------------------------ 2c. what the command line reports as its edition / style_edition / version
+    # an inline `--config edition=..` counts like the dedicated flag when the base defaults are chosen (it is read before apply_to runs)
+    both_ = ctx.engine(('rustfmt', 'lib'), loop_bound=4)
+    both_.stubs = []
+    was_len, was_inl = both_.lenient, both_.inline_only
+    both_.lenient = True
+    gf_ = both_.src.struct_fields('GetOptsOptions', 'src/bin/main.rs')
+    for meth, key_, ety in (('edition', 'edition', 'Edition'), ('style_edition', 'style_edition', 'StyleEdition'), ('version', 'version', 'Version')):
+        try:
+            gname = both_.find(meth, self_ty='GetOptsOptions', file='src/bin/main.rs', trait='CliOptions')
+        except KeyError as e:
+            raise Inconclusive('CliOptions::%s not found: %s' % (meth, e))
+        both_.inline_only = [re.compile(re.escape(meth) + '$')]
+        both_.stubs = []
+        st = State()
+        has_inline = z3.Bool('inline_config.has[%s]' % key_)
+        parsed = both_.fresh_of_type(st, 'Option<%s>' % ety, 'parsed_inline_' + key_)
+        flag = both_.fresh_of_type(st, 'Option<%s>' % ety, 'flag_' + key_)
+        if meth not in [n for n, _ in gf_]:
+            st.assume(flag.discr == 0)          # no dedicated flag for this option: only the inline value counts
+        asked = []
+
+        def hm_get(e, s_, a, c, asked=asked):
+            k = a[1]
+            while isinstance(k, Ref):
+                k = e.read_ref(s_, k)
+            asked.append(k.s if isinstance(k, StrVal) else None)
+            tok = e.ref_to(s_, StrVal(s='<inline value>'), False, 'inline_val')
+            return Enum('Option', z3.If(has_inline, z3.BitVecVal(1, 64), z3.BitVecVal(0, 64)), {1: Tup([tok])})
+        both_.stub(r'HashMap::<.*>::get::<', hm_get, 'inline_config.get(key) = Some(value) | None, symbolic; the key is observed')
+        both_.stub(r'as (std::str::)?FromStr>::from_str$', lambda e, s_, a, c, p_=parsed: Enum('Result', z3.If(p_.discr == 1, z3.BitVecVal(0, 64), z3.BitVecVal(1, 64)), {0: Tup([p_.payloads[1].items[0]]), 1: Tup([Opaque('ParseError', 'pe')])}),
+                   'FromStr::from_str(inline value) = Ok(v) | Err, symbolic')
+        vals = []
+        for n, ty in gf_:
+            if n == meth:
+                vals.append(flag)
+            elif n == 'inline_config':
+                vals.append(Opaque('HashMap', 'inline_config'))
+            else:
+                vals.append(Opaque('GetOptsOptions.' + n, n))
+        selfref = both_.ref_to(st, Tup(vals, 'GetOptsOptions'), False, 'options')
+        outs = ctx.check_outcomes(both_.run(gname, [selfref], st), 'CliOptions::' + meth)
+        for i, o in enumerate(outs):
+            if o.kind != 'ret':
+                ctx.prop('cli-getter/%s/p%d/no-panic' % (meth, i), o.state.pc, z3.BoolVal(True), [], rp, twin=False)
+                continue
+            v = o.value
+            if not isinstance(v, Enum):
+                raise Inconclusive('CliOptions::%s returns %r' % (meth, v))
+            want_d = z3.If(has_inline, parsed.discr, flag.discr)
+            want_p = z3.If(has_inline, parsed.payloads[1].items[0].discr, flag.payloads[1].items[0].discr)
+            gp = v.payloads[1].items[0].discr if 1 in v.payloads and isinstance(v.payloads[1].items[0], Enum) else z3.BitVecVal(-1, 64)
+            ctx.prop('cli-getter/%s/p%d/inline-value-counts-like-the-flag' % (meth, i), o.state.pc, z3.Or(v.discr != want_d, z3.And(want_d == 1, gp != want_p)),
+                     [has_inline, parsed.discr, flag.discr], rp)
+        if asked and any(a_ != key_ for a_ in asked):
+            ctx.prop('cli-getter/%s/asks-for-its-own-key' % meth, [], z3.BoolVal(True), [], rp, twin=False)
+    both_.stubs = []
+    both_.lenient, both_.inline_only = was_len, was_inl
+
     # ------------------------------------------------------------------ 3. deprecated aliases
     ig = eng.enum_variants('ImportGranularity')
     for setter, old, new, kind in (('set_merge_imports', 'merge_imports', 'imports_granularity', 'merge'),
@@ -292,7 +351,9 @@ def build(ctx):
             continue
         v = o.value
         if DOT not in meta or PLAIN not in meta:
-            raise Inconclusive('config file names changed: %r' % (sorted(meta),))
+            # get_toml_path no longer probes both names itself: the walk kernel (4b) inlines whatever helpers there are and decides the same clause
+            ctx.notes.append('get_toml_path alone does not probe both names (%r): clause decided by the walk kernel only' % (sorted(meta),))
+            break
         dot_file = z3.And(*meta[DOT])
         plain_file = z3.And(*meta[PLAIN])
         is_ok = v.discr == 0
@@ -313,6 +374,161 @@ def build(ctx):
     eng.stubs = []
     eng.lenient = False
     eng.inline_only = None
+
+    # ------------------------------------------------------------------ 4b. the walk: nearest directory first, then home, then <config dir>/rustfmt
+    # resolve_project_file with everything it calls inlined (get_toml_path and whatever helpers exist); the std::path API is a model over
+    # a chain of D directories (level 0 = the start directory, level D-1 = the file-system root) plus the home and config directories.
+    rpf = eng.find('resolve_project_file', free=True)
+    eng.stubs = []
+    eng.lenient = True          # error construction (format!, anyhow) is uninterpreted; every crate function is inlined
+    eng.inline_only = None
+    D = 2 if ctx.tier == 'quick' else 3
+    HOME, CFG, CFGR = 10, 11, 12
+    fmeta = {}
+
+    def dirv(level):
+        return Tup([bv_const(level, 'usize')], 'Dir')
+
+    def dv(e, s_, v):
+        while isinstance(v, Ref):
+            v = e.read_ref(s_, v)
+        return v
+
+    def lvl(v):
+        if isinstance(v, Tup) and v.name == 'Dir':
+            return v.items[0].concrete()
+        raise Unsupported('not a modelled directory: %r' % (v,))
+
+    def st_join(e, s_, a, c):
+        d_, nm = dv(e, s_, a[0]), dv(e, s_, a[1])
+        if isinstance(nm, StrVal) and nm.s is not None:
+            return Tup([d_, nm], 'Joined')
+        raise Unsupported('join with %r' % (nm,))
+
+    def st_pop(e, s_, a, c):
+        cur = dv(e, s_, a[0])
+        l_ = lvl(cur)
+        if l_ < D - 1:
+            e.write_ref(s_, a[0], dirv(l_ + 1))
+            return z3.BoolVal(True)
+        return z3.BoolVal(False)
+
+    def st_push(e, s_, a, c):
+        cur = dv(e, s_, a[0])
+        if lvl(cur) == CFG:
+            e.write_ref(s_, a[0], dirv(CFGR))
+            return UNIT
+        raise Unsupported('push on %r' % (cur,))
+
+    def st_ancestors(e, s_, a, c):
+        return Tup([bv_const(lvl(dv(e, s_, a[0])), 'usize')], 'Ancestors')
+
+    def st_anc_next(e, s_, a, c):
+        it = dv(e, s_, a[0])
+        l_ = it.items[0].concrete()
+        if l_ >= D:
+            return Enum('Option', 0, {})
+        e.write_ref(s_, a[0], Tup([bv_const(l_ + 1, 'usize')], 'Ancestors'))
+        return Enum('Option', 1, {1: Tup([e.ref_to(s_, dirv(l_), False, 'anc')])})
+
+    def st_parent(e, s_, a, c):
+        l_ = lvl(dv(e, s_, a[0]))
+        return Enum('Option', 1, {1: Tup([e.ref_to(s_, dirv(l_ + 1), False, 'parent')])}) if l_ < D - 1 else Enum('Option', 0, {})
+
+    def st_opt_dir(level, what):
+        def f(e, s_, a, c):
+            s2 = s_.fork()
+            s_.trace.append((what, True))
+            s2.trace.append((what, False))
+            return [(s_, 'ret', Enum('Option', 1, {1: Tup([dirv(level)])})), (s2, 'ret', Enum('Option', 0, {}))]
+        return f
+
+    def st_metadata(e, s_, a, c):
+        pth = dv(e, s_, a[0])
+        if not (isinstance(pth, Tup) and pth.name == 'Joined'):
+            raise Unsupported('metadata of %r' % (pth,))
+        key = (lvl(pth.items[0]), pth.items[1].s)
+        if key not in fmeta:
+            fmeta[key] = (z3.Bool('exists[%d,%s]' % key), z3.Bool('is_file[%d,%s]' % key), z3.Bool('not_found[%d,%s]' % key))
+        ok, isf, nf = fmeta[key]
+        s2 = s_.fork()
+        s_.assume(ok)
+        s2.assume(z3.Not(ok))
+        return [(s_, 'ret', Enum('Result', 0, {0: Tup([Opaque('Metadata', key)])})), (s2, 'ret', Enum('Result', 1, {1: Tup([Opaque('io::Error', key)])}))]
+
+    ek_notfound = None
+    eng.stub(r'(^|::)Path::is_relative$', lambda e, s_, a, c: z3.BoolVal(False), 'the start directory is absolute')
+    eng.stub(r'(^|::)Path::to_path_buf$|<PathBuf as (std::ops::)?Deref>::deref$|<PathBuf as (std::convert::)?AsRef<.*>>::as_ref$|<PathBuf as (std::clone::)?Clone>::clone$', lambda e, s_, a, c: (dv(e, s_, a[0]) if not c.func.endswith('deref') else a[0]), 'PathBuf/Path views = the same directory value')
+    eng.stub(r'(^|::)canonicalize::<|(^|::)Path::canonicalize$', lambda e, s_, a, c: Enum('Result', 0, {0: Tup([dv(e, s_, a[0])])}), 'canonicalize = Ok(the same path): paths are canonical')
+    eng.stub(r'(^|::)Path::join::<', st_join, 'Path::join(dir, name) = constructor')
+    eng.stub(r'PathBuf::pop$', st_pop, 'PathBuf::pop: one level up, false at the root (chain of D directories)')
+    eng.stub(r'PathBuf::push::<', st_push, 'PathBuf::push("rustfmt") on the config directory')
+    eng.stub(r'(^|::)Path::ancestors$', st_ancestors, 'Path::ancestors = the chain from this directory to the root')
+    eng.stub(r'Ancestors<.*> as (std::iter::)?Iterator>::next$', st_anc_next, 'Ancestors::next')
+    eng.stub(r'Ancestors<.*> as (std::iter::)?IntoIterator>::into_iter$', lambda e, s_, a, c: a[0], 'Ancestors::into_iter = itself')
+    eng.stub(r'(^|::)Path::parent$', st_parent, 'Path::parent')
+    eng.stub(r'(^|::)home_dir$', st_opt_dir(HOME, 'home'), 'dirs::home_dir = Some(home) | None')
+    eng.stub(r'(^|::)config_dir$', st_opt_dir(CFG, 'config'), 'dirs::config_dir = Some(dir) | None')
+    eng.stub(r'(^|::)fs::metadata::<|(^|::)metadata::<', st_metadata, 'fs::metadata(dir/name) = Ok | Err, symbolic per (directory, name)')
+    eng.stub(r'Metadata::is_file$', lambda e, s_, a, c: fmeta[dv(e, s_, a[0]).ident][1], 'Metadata::is_file symbolic per (directory, name)')
+    eng.stub(r'io::Error::kind$|error::Error::kind$', lambda e, s_, a, c: Enum('ErrorKind', z3.If(fmeta[dv(e, s_, a[0]).ident][2], z3.BitVecVal(0, 64), z3.BitVecVal(1, 64)), {}), 'io::Error::kind = NotFound | other, symbolic')
+    def ek_eq(e, s_, a, c):
+        x, y = dv(e, s_, a[0]), dv(e, s_, a[1])
+        # one side is the error's kind (harness enum: 0 = NotFound), the other the constant ErrorKind::NotFound
+        sym = x if isinstance(x, Enum) and x.name == 'ErrorKind' and not z3.is_bv_value(z3.simplify(x.discr)) else y
+        if not (isinstance(sym, Enum) and sym.name == 'ErrorKind'):
+            raise Unsupported('ErrorKind comparison %r %r' % (x, y))
+        r = sym.discr == 0
+        return r if c.func.endswith('eq') else z3.Not(r)
+    eng.stub(r'<(std::io::)?ErrorKind as (std::cmp::)?PartialEq>::(eq|ne)$', ek_eq, 'kind == ErrorKind::NotFound')
+    st = State()
+    startref = eng.ref_to(st, dirv(0), False, 'start')
+    eng.loop_bound = 12
+    try:
+        outs = ctx.check_outcomes(eng.run(rpf, [startref], st), 'resolve_project_file')
+    except Unsupported as e:
+        raise Inconclusive('resolve_project_file not encodable: %s' % e)
+    log('[C14] resolve_project_file over %d directories + home + config: %d paths' % (D, len(outs)))
+    DOT, PLAIN = '.rustfmt.toml', 'rustfmt.toml'
+    nsome = 0
+    for i, o in enumerate(outs):
+        if o.kind != 'ret':
+            ctx.prop('walk/p%d/no-panic' % i, o.state.pc, z3.BoolVal(True), [], rp, twin=False)
+            continue
+        v = o.value
+        if v.concrete() != 0:
+            continue                     # an io error other than NotFound ends the search: Err
+        optv = v.payloads[0].items[0]
+        has_home = any(t == ('home', True) for t in o.state.trace)
+        has_cfg = any(t == ('config', True) for t in o.state.trace)
+        order = [(l_, n_) for l_ in range(D) for n_ in (DOT, PLAIN)] + ([(HOME, DOT), (HOME, PLAIN)] if has_home else []) + ([(CFGR, DOT), (CFGR, PLAIN)] if has_cfg else [])
+
+        def isfile(key):
+            if key not in fmeta:
+                fmeta[key] = (z3.Bool('exists[%d,%s]' % key), z3.Bool('is_file[%d,%s]' % key), z3.Bool('not_found[%d,%s]' % key))
+            return z3.And(fmeta[key][0], fmeta[key][1])
+        mvw = [x for key in order for x in fmeta.get(key, ())[:2]]
+        if optv.concrete() == 1:
+            nsome += 1
+            pth = dv(eng, o.state, optv.payloads[1].items[0])
+            if not (isinstance(pth, Tup) and pth.name == 'Joined'):
+                raise Inconclusive('resolve_project_file returns %r' % (pth,))
+            key = (lvl(pth.items[0]), pth.items[1].s)
+            if key not in order:
+                ctx.prop('walk/p%d/returns-a-config-file-of-a-searched-directory' % i, o.state.pc, z3.BoolVal(True), mvw, rp, twin=False)
+                continue
+            earlier = order[:order.index(key)]
+            ctx.prop('walk/p%d/nearest-directory-first-then-home-then-config,dotted-name-first' % i, o.state.pc,
+                     z3.Or([z3.Not(isfile(key))] + [isfile(e_) for e_ in earlier]), mvw, rp, twin=False)
+        elif optv.concrete() == 0:
+            ctx.prop('walk/p%d/none-only-when-no-searched-directory-has-a-config-file' % i, o.state.pc, z3.Or([isfile(e_) for e_ in order]), mvw, rp, twin=False)
+        else:
+            raise Inconclusive('resolve_project_file: symbolic Option result')
+    if not nsome:
+        raise Inconclusive('resolve_project_file: no path finds a file')
+    eng.stubs = []
+    eng.lenient = False
+    eng.loop_bound = 8
 
     # ------------------------------------------------------------------ 5. per-file configuration in multi-file invocations (binary)
     both = ctx.engine(('rustfmt', 'lib'), loop_bound=5)
@@ -417,9 +633,22 @@ def cli_findings():
         found.setdefault('other', []).append('both config file names present: tab_spaces=%s, the dotted file says 7' % vals.get('tab_spaces'))
     os.remove(os.path.join(d, 'rustfmt.toml'))
     os.remove(os.path.join(d, '.rustfmt.toml'))
+    # the two names mixed across levels: the nearer directory wins whatever the name
+    sub = os.path.join(d, 'lvl', 'sub')
+    os.makedirs(sub)
+    for outer, inner in (('.rustfmt.toml', 'rustfmt.toml'), ('rustfmt.toml', '.rustfmt.toml')):
+        open(os.path.join(d, 'lvl', outer), 'w').write('tab_spaces = 2\n')
+        open(os.path.join(sub, inner), 'w').write('tab_spaces = 8\n')
+        open(os.path.join(sub, 'x.rs'), 'w').write('fn f() {}\n')
+        vals, r = print_config(['--print-config', 'current', 'x.rs'], cwd=sub, env_home=os.path.join(d, 'nohome'))
+        if vals.get('tab_spaces') != '8':
+            found.setdefault('other', []).append('%s one level up, %s in the directory: tab_spaces=%s, the nearer file says 8' % (outer, inner, vals.get('tab_spaces')))
+        os.remove(os.path.join(d, 'lvl', outer))
+        os.remove(os.path.join(sub, inner))
     # precedence
     for args, want in ((['--style-edition', '2024', '--edition', '2015'], '2024'), (['--edition', '2018'], '2018'), (['--config', 'version=Two', '--edition', '2015'], '2024'),
-                       (['--config', 'version=One,style_edition=2024'], '2024')):
+                       (['--config', 'version=One,style_edition=2024'], '2024'), (['--config', 'edition=2024'], '2024'), (['--edition', '2024'], '2024'),
+                       (['--config', 'edition=2024', '--edition', '2015'], '2024'), (['--config', 'style_edition=2024', '--edition', '2015'], '2024')):
         vals, r = print_config(args + ['--print-config', 'current', '.'], cwd=d, env_home=d)
         # the style_edition option's own default is 2024 for 2024 and 2015 for every earlier edition (options.rs: the editions
         # 2015/2018/2021 share all defaults, C09), so an unset style_edition under --edition 2018 prints as 2015: compare classes
